@@ -44,6 +44,7 @@ def step (d : DState) (line : String) : DState × String :=
     | ["flush"] => (d.put (Store.flush s now), "ok")
     | ["sleep", _] => (d, "ok")
     | ["dump"] => (d, Driver.dumpState s)
+    | ["ldump"] => (d, Driver.dumpState s (some now))
     | "api" :: method :: rest =>
       (match Driver.callApi { s with signalled := [], held := [], hung := false } now method (Driver.groups rest) choice with
        | none => (d, "bad-op")
